@@ -21,6 +21,8 @@ RULE = ("rf: hand-built card images + random line lists over a 14-symbol alphabe
         "meta: generated copybooks (groups to depth 4, OCCURS, ODO, REDEFINES, FILLER, all usages) x each rewrite kind at every "
         "applicable site (quick; for the rewrites whose site is a line position: first, last and 5 random positions; every second "
         "copybook is already broken over several lines so that noise lines fall inside entries, every fourth also has OCCURS written first) / random compositions of 2-5 rewrites (thorough). Non-trivial = branch id > 0 "
+        "Level renumbering: one number per depth (renumber), one group's children renumbered on their own (renumber_group, every group), "
+        "every group choosing independently (renumber_all); 3 hand-shaped copybooks with sibling subtrees of different depth. "
         "(rf: number of emitted lines; sent: number of sentences; meta: 100 + rewrite kind). distinct = distinct case lines.")
 TRIVIAL_BRANCHES = [0]
 ASSUMPTIONS = [
@@ -112,8 +114,34 @@ def gen_copybook(rng, size=None):
 # printer: style = spelling choices.  st[i] = per-entry choices, st['g'] = global choices
 # ------------------------------------------------------------------------------------------------
 
+def parents_of(ents):
+    """index of the enclosing group of every entry (None for the root), from the depths"""
+    out, stack = [], []
+    for i, e in enumerate(ents):
+        while stack and ents[stack[-1]]["d"] >= e["d"]:
+            stack.pop()
+        out.append(stack[-1] if stack else None)
+        stack.append(i)
+    return out
+
+
+def entry_levels(ents, st):
+    """level number of every entry.  Default: one number per depth (LEVELS[st['levels']]); a group listed in
+    st['child_level'] numbers ITS children with its own number.  Always strictly greater than the group's own level,
+    all children of one group equal, at most 49 (depth <= 3)."""
+    par = parents_of(ents)
+    lv = []
+    for i, e in enumerate(ents):
+        if par[i] is None:
+            lv.append(LEVELS[st["levels"]][0])
+        else:
+            base = st.get("child_level", {}).get(str(par[i]), LEVELS[st["levels"]][e["d"]])
+            lv.append(min(49, max(base, lv[par[i]] + 1)))
+    return lv
+
+
 def base_style(ents):
-    return {"levels": 0, "seq": {}, "ident": {}, "noise": [], "tail_nl": True,
+    return {"levels": 0, "child_level": {}, "seq": {}, "ident": {}, "noise": [], "tail_nl": True,
             "e": [dict(pic_word="PIC", pic_is=False, usage_kw=False, usage_is=False, syn=0, times=False, on=True, order=0,
                        sep=None, lower=False, breaks=[], cont=None, value=None, value_is=False, neutral=[], cond=[], key=None,
                        just_word="JUSTIFIED", blank_when=True, occurs_to=True)
@@ -216,7 +244,7 @@ def clause_groups(e, s):
 
 def entry_tokens(ents, i, st):
     e, s = ents[i], st["e"][i]
-    lv = LEVELS[st["levels"]][e["d"]]
+    lv = entry_levels(ents, st)[i]
     toks = [("%02d" % lv, False)]
     if e["name"] is not None:
         toks.append((e["name"], False))
@@ -311,7 +339,7 @@ KINDS = {
     "sep": 9, "sep_after_pic": 10, "opt_is": 11, "opt_times": 12, "opt_usage": 13, "opt_on": 14, "opt_key": 15,
     "syn_pic": 16, "syn_usage": 17, "order": 18, "renumber": 19, "lower": 20, "value": 21, "value_kw": 22,
     "neutral": 23, "cond88": 24, "numbered_directive": 25, "slash_comment": 26, "opt_to": 27, "filler_word": 28,
-    "opt_indexed": 29,
+    "opt_indexed": 29, "renumber_group": 30, "renumber_all": 31,
 }
 
 
@@ -375,6 +403,11 @@ def sites(ents, st, kind):
         return out
     if kind == "renumber":
         return [1, 2, 3]
+    if kind == "renumber_group":
+        par = parents_of(ents)
+        return sorted({p for p in par if p is not None})          # every group, the root included
+    if kind == "renumber_all":
+        return [0, 1, 2]
     if kind == "lower":
         return list(E) + ["all"]
     if kind in ("value", "value_kw"):
@@ -445,6 +478,24 @@ def apply(ents, st, kind, site, rng_val=0):
         st["e"][site[0]]["order"] = site[1]
     elif kind == "renumber":
         st["levels"] = site
+    elif kind == "renumber_group":
+        # this group numbers its children on its own: any level above its own that leaves room for the deeper levels
+        own = entry_levels(ents, st)[site]
+        top = 47 + ents[site]["d"]
+        cands = [x for x in range(own + 1, top + 1)]
+        st["child_level"][str(site)] = cands[(v * 7919) % len(cands)]
+    elif kind == "renumber_all":
+        # every group chooses independently (pseudo-random in v and the group index), sibling groups differently
+        par = parents_of(ents)
+        for g in sorted({p for p in par if p is not None}):
+            own = entry_levels(ents, st)[g]
+            top = 47 + ents[g]["d"]
+            cands = [x for x in range(own + 1, top + 1)]
+            if site == 0:
+                cands = cands[:20]
+            elif site == 1:
+                cands = cands[:12]            # small steps: later groups often BELOW their earlier cousins
+            st["child_level"][str(g)] = cands[((v + 1) * 7919 + g * 104729 + site) % len(cands)]
     elif kind == "lower":
         for i in (range(len(ents)) if site == "all" else [site]):
             st["e"][i]["lower"] = True
@@ -477,7 +528,7 @@ def flags(ents, st, kind, site):
     idx = site[0] if isinstance(site, list) else site
     if kind == "lower" and site == "all":
         es = ents
-    elif kind in ("seq", "ident", "renumber") + NOISE_KINDS or not isinstance(idx, int):
+    elif kind in ("seq", "ident", "renumber", "renumber_group", "renumber_all") + NOISE_KINDS or not isinstance(idx, int):
         es = []
     else:
         es = [ents[idx]]
@@ -657,11 +708,27 @@ def sent_random(rng):
 
 
 META_KINDS_QUICK = ["seq", "ident", "comment", "blank", "directive", "rebreak", "cont_token", "sep", "opt_is", "opt_times",
-                    "opt_usage", "opt_on", "opt_to", "opt_key", "syn_pic", "syn_usage", "order", "renumber", "value", "neutral",
+                    "opt_usage", "opt_on", "opt_to", "opt_key", "syn_pic", "syn_usage", "order", "renumber", "renumber_group", "renumber_all", "value", "neutral",
                     "cond88", "filler_word",
                     # rewrites the property text allows but the implementation is known to mishandle
                     "lower", "sep_after_pic", "value_kw", "cont_word", "numbered_directive", "slash_comment", "opt_indexed"]
 KNOWN_BAD_KINDS = META_KINDS_QUICK[-7:]
+
+
+def _e(d, name, pic=None, usage=None, occurs=None):
+    return dict(d=d, name=name, pic=pic, usage=usage, occurs=occurs, odo=None, redef=None)
+
+
+# sibling subtrees of different depth: a deep first group, later groups at shallower / equal depth (with and without OCCURS)
+SHAPED = [
+    [_e(0, "REC"), _e(1, "GRP-A"), _e(2, "GRP-B"), _e(3, "FLD-A", "X(3)"), _e(3, "FLD-B", "9(3)"), _e(2, "AMT-1", "S9(4)", "B"),
+     _e(1, "GRP-C"), _e(2, "ITEM-1", "X(2)"), _e(2, "ITEM-2", "9(7)", "P"), _e(1, "TRL", "X")],
+    [_e(0, "REC"), _e(1, "HDR", "XX"), _e(1, "GRP-A"), _e(2, "GRP-B", occurs=2), _e(3, "FLD-A", "X(3)"), _e(2, "QTY", "99"),
+     _e(1, "TBL-A", occurs=3), _e(2, "ITEM-1", "X(2)"), _e(2, "ITEM-2", "S9(5)V99", "P"), _e(1, "TBL-B", occurs=2),
+     _e(2, "KEY-X", "X(4)")],
+    [_e(0, "REC"), _e(1, "GRP-A"), _e(2, "FLD-A", "X"), _e(1, "GRP-B"), _e(2, "GRP-C"), _e(3, "N1", "9"), _e(3, "N2", "99"),
+     _e(1, "TBL-A", occurs=4), _e(2, "RATE", "S999", "B"), _e(1, "TBL-B"), _e(2, "ZIP-4", "9(4)"), _e(2, "LAST-NM", "X(10)")],
+]
 
 
 def inputs(ctx):
@@ -683,9 +750,12 @@ def inputs(ctx):
     # layer B
     ncb = 24 if quick else 150
     for c in range(ncb):
-        ents = gen_copybook(rng)
+        ents = SHAPED[c] if c < len(SHAPED) else gen_copybook(rng)
         st0 = base_style(ents)
         pre = []
+        if c % 3 == 2:
+            # original already numbered group by group
+            pre.append(["renumber_all", c % 2, rng.randint(0, 255)])
         if c % 2:
             # original already broken over several lines, so that noise lines can fall inside an entry
             for i in sites(ents, st0, "rebreak"):
@@ -707,7 +777,7 @@ def inputs(ctx):
     if not quick:
         clean = [k for k in META_KINDS_QUICK if k not in KNOWN_BAD_KINDS]
         for c in range(2500):
-            ents = gen_copybook(rng)
+            ents = rng.choice(SHAPED) if c % 10 == 0 else gen_copybook(rng)
             st = base_style(ents)
             rws = []
             for _ in range(rng.randint(2, 6)):
